@@ -104,6 +104,11 @@ func (fr *Frame) exec(in ssa.Instruction) {
 		fr.st.storeCell("int", m.S, IntLit(0), n)
 		fr.mapInvCheck(x, x.Map.Type(), fr.get(x.Value))
 		fr.u.note("map contents are abstracted (lookups return unconstrained values)")
+		// trace: map assignments executed so far are counted like calls of a pseudo-callee ($calls_mapupdate)
+		if fr.parent == nil && fr.reach != False {
+			id := IntLit(callsID(mapUpdateName))
+			fr.st.storeCell(callsKind, IntLit(0), id, Add(fr.st.loadCell(callsKind, IntLit(0), id), IntLit(1)))
+		}
 	case *ssa.Lookup:
 		fr.lookup(x)
 	case *ssa.Range:
